@@ -544,7 +544,7 @@ def units(draw: Any, feat: Optional[Features] = None) -> Unit:
     if feat.message_grids and feat.aliases and draw(st.integers(0, 5)) == 4:
         add_message_grid(draw, b.unit, feat.extensible and feat.ext_arrays, feat.signed_nonstd)
         _clamp_sizes(b.unit)
-    if feat.message_grids and feat.aliases and draw(st.integers(0, 7)) == 6:
+    if feat.message_grids and feat.aliases and draw(st.integers(0, 5)) == 3:
         add_bulk_array(draw, b.unit, feat.signed_nonstd)
         _clamp_sizes(b.unit)
     if feat.long_names and draw(st.integers(0, 5)) == 1:
@@ -649,7 +649,7 @@ def add_bulk_array(draw: Any, unit: Unit, signed_nonstd: bool = True) -> bool:
     names = [n for n in ("Brow", "Bbulk") if n not in taken]
     if len(names) < 2:
         return False
-    kind = draw(st.sampled_from(["row", "row", "row", "base", "bigrow", "bigrow"]))
+    kind = ["bigrow", "row", "base", "row", "bigrow", "row"][draw(st.integers(0, 5))]
     outer_caps = [30, 31, 32, 33, 40, 64, 65, 70]
     if kind == "bigrow":
         # BOTH levels long, the inner one longer than the outer one (an index or a counter used for the wrong level leaves the row)
@@ -667,7 +667,7 @@ def add_bulk_array(draw: Any, unit: Unit, signed_nonstd: bool = True) -> bool:
             row.type = TBase("byte")
     bulk = Message(names[1], False)
     bulk.items += [
-        Field("lead", TBase("uint", draw(st.sampled_from([8, 8, 16, 3, 5]))), 1),
+        Field("lead", TBase("uint", [8, 3, 16, 8, 5][draw(st.integers(0, 4))]), 1),
         Field("cells", TArray(TRef(row.name, row), draw(st.sampled_from(outer_caps))), 2),
         Field("tail", TBase("uint", 5), 3),
     ]
